@@ -56,8 +56,12 @@ def same_leaves(inp, out, v, ec):
 # C03 is about dropping and reordering, not about re-formatting: numeric/date leaves are drawn from values
 # the datatype factory keeps verbatim (re-formatting is C13's subject)
 VERBATIM = dict(S.LEAF)
+# the HL7 null value "" is content like any other (it asks the receiver to delete the stored value)
+for _dt in ('ST', 'ID', 'IS', 'TX', 'FT'):
+    if _dt in VERBATIM:
+        VERBATIM[_dt] = list(VERBATIM[_dt]) + ['""', '""']
 VERBATIM.update({
-    'DT': ['20200101', '2020', '202012', 'x9', '2020010'],
+    'DT': ['20200101', '2020', '202012', 'x9', '2020010', '""'],
     'DTM': ['20200101', '202001011230', '20200101123059', '2020', 'q'],
     'TM': ['1200', '120000', '12', 'noon'],
     'NM': ['1', '15', '-3', 'abc', '1.5'],
